@@ -538,6 +538,9 @@ pub struct Executed {
 pub async fn plan_sql(ctx: &SessionContext, sql: &str) -> Result<Arc<dyn ExecutionPlan>> {
     let plan = ctx.sql(sql).await?.create_physical_plan().await?;
     probe_plan(&plan);
+    if std::env::var_os("VERIF_DEBUG_PLAN").is_some() {
+        eprintln!("{}", datafusion_physical_plan::displayable(plan.as_ref()).indent(true));
+    }
     Ok(plan)
 }
 
@@ -786,16 +789,41 @@ pub fn nlj_fallback_kind(plan: &Arc<dyn ExecutionPlan>) -> Option<&'static str> 
 /// known EnsureCooperative finding (known-findings.txt): the rule treats a cooperative *eager*
 /// ancestor as cover.
 pub fn unprotected_noncooperative_leaf(plan: &Arc<dyn ExecutionPlan>) -> bool {
+    matches!(unprotected_leaf_kind(plan), Some(true))
+}
+
+/// `None`: every non-cooperative leaf is covered. `Some(true)`: there are uncovered leaves and each of
+/// them sits below a cooperative *eager* ancestor (the shape of the known finding: the rule takes that
+/// exchange for cover). `Some(false)`: some uncovered leaf has no cooperative ancestor of any kind —
+/// nothing in the rule as written explains that, so it is not attributed to the known finding.
+pub fn unprotected_leaf_kind(plan: &Arc<dyn ExecutionPlan>) -> Option<bool> {
     use datafusion_physical_plan::execution_plan::{EvaluationType, SchedulingType};
-    fn walk(p: &Arc<dyn ExecutionPlan>, covered: bool) -> bool {
+    // returns (uncovered leaves explained by a cooperative eager ancestor, unexplained uncovered leaves)
+    fn walk(p: &Arc<dyn ExecutionPlan>, covered: bool, coop_eager_above: bool, out: &mut (usize, usize)) {
         let props = p.properties();
         let coop = props.scheduling_type == SchedulingType::Cooperative;
         let eager = props.evaluation_type == EvaluationType::Eager;
         if p.children().is_empty() {
-            return !coop && !covered;
+            if !coop && !covered {
+                if coop_eager_above {
+                    out.0 += 1;
+                } else {
+                    out.1 += 1;
+                }
+            }
+            return;
         }
         let below = if eager { false } else { covered || coop };
-        p.children().iter().any(|c| walk(c, below))
+        let eager_coop = if eager { coop } else { coop_eager_above };
+        for c in p.children() {
+            walk(c, below, eager_coop, out);
+        }
     }
-    walk(plan, false)
+    let mut out = (0, 0);
+    walk(plan, false, false, &mut out);
+    match out {
+        (0, 0) => None,
+        (_, 0) => Some(true),
+        _ => Some(false),
+    }
 }
